@@ -24,6 +24,7 @@ type State struct {
 	skipCut *ssa.BasicBlock
 	iters   map[*ssa.BasicBlock]int
 	inLoop  map[*ssa.BasicBlock]*loopCut
+	ghost   map[string][]Value // ghost logs written by the contracts of trusted calls
 }
 
 type loopCut struct {
@@ -42,6 +43,12 @@ func (s *State) fork(pc *Term) *State {
 	n.inLoop = map[*ssa.BasicBlock]*loopCut{}
 	for k, v := range s.inLoop {
 		n.inLoop[k] = v
+	}
+	if s.ghost != nil {
+		n.ghost = map[string][]Value{}
+		for k, v := range s.ghost {
+			n.ghost[k] = append([]Value{}, v...)
+		}
 	}
 	return n
 }
@@ -72,9 +79,10 @@ type inputRec struct {
 }
 
 type retRec struct {
-	pc   *Term
-	vals []Value
-	heap *Heap
+	pc    *Term
+	vals  []Value
+	heap  *Heap
+	ghost map[string][]Value
 }
 
 type Frame struct {
@@ -338,7 +346,7 @@ func (x *Exec) run(fr *Frame, st *State, b *ssa.BasicBlock, stop *ssa.BasicBlock
 			for i, r := range t.Results {
 				vals[i] = x.get(r)
 			}
-			fr.returns = append(fr.returns, retRec{pc: st.pc, vals: vals, heap: st.heap})
+			fr.returns = append(fr.returns, retRec{pc: st.pc, vals: vals, heap: st.heap, ghost: st.ghost})
 			return nil
 		case *ssa.Panic:
 			// explicit panic: reachable only if the path condition is satisfiable
@@ -419,6 +427,7 @@ func (x *Exec) joinStates(join *ssa.BasicBlock, c *Term, a, b *State) *State {
 		}
 	}
 	m.heap = x.mergeHeaps(c, a.heap, b.heap)
+	m.ghost = x.mergeGhost(c, a.ghost, b.ghost)
 	m.regs = make(map[ssa.Value]Value, len(a.regs))
 	for k, v := range a.regs {
 		if w, ok := b.regs[k]; ok {
@@ -1549,7 +1558,7 @@ func (x *Exec) callFunction(fn *ssa.Function, args []Value, bind []Value, ghost 
 		}
 		fr.entryHeap = caller.heap.clone()
 	}
-	st := &State{pc: caller.pc, heap: caller.heap, regs: map[ssa.Value]Value{}, iters: map[*ssa.BasicBlock]int{}, inLoop: map[*ssa.BasicBlock]*loopCut{}}
+	st := &State{pc: caller.pc, heap: caller.heap, regs: map[ssa.Value]Value{}, iters: map[*ssa.BasicBlock]int{}, inLoop: map[*ssa.BasicBlock]*loopCut{}, ghost: caller.ghost}
 	for i, p := range fn.Params {
 		if i < len(args) {
 			st.regs[p] = args[i]
@@ -1587,9 +1596,11 @@ func (x *Exec) callFunction(fn *ssa.Function, args []Value, bind []Value, ghost 
 	pc := res.pc
 	heap := res.heap
 	vals := res.vals
+	gh := res.ghost
 	for i := len(fr.returns) - 2; i >= 0; i-- {
 		r := fr.returns[i]
 		heap = x.mergeHeaps(r.pc, r.heap, heap)
+		gh = x.mergeGhost(r.pc, r.ghost, gh)
 		nv := make([]Value, len(vals))
 		for k := range vals {
 			nv[k] = x.mergeValue(r.pc, r.vals[k], vals[k])
@@ -1599,6 +1610,7 @@ func (x *Exec) callFunction(fn *ssa.Function, args []Value, bind []Value, ghost 
 	}
 	caller.pc = pc
 	caller.heap = heap
+	caller.ghost = gh
 	x.st = caller
 	switch len(vals) {
 	case 0:
@@ -1909,4 +1921,34 @@ func (x *Exec) loadTyped(p Value, t types.Type) Value {
 		return x.mergeValue(pv.C, x.loadTyped(pv.A, t), x.loadTyped(pv.B, t))
 	}
 	return x.load(p)
+}
+
+func (x *Exec) mergeGhost(c *Term, a, b map[string][]Value) map[string][]Value {
+	if a == nil && b == nil {
+		return nil
+	}
+	m := map[string][]Value{}
+	for k, va := range a {
+		vb := b[k]
+		if len(va) != len(vb) {
+			// histories of different length: keep the common prefix only when identical, else mark unknown
+			m[k] = []Value{UnknownV{nil, "ghost log " + k + " has different lengths on joined paths"}}
+			continue
+		}
+		out := make([]Value, len(va))
+		for i := range va {
+			out[i] = x.mergeValue(c, va[i], vb[i])
+		}
+		m[k] = out
+	}
+	for k, vb := range b {
+		if _, ok := a[k]; !ok {
+			if len(vb) == 0 {
+				m[k] = vb
+			} else {
+				m[k] = []Value{UnknownV{nil, "ghost log " + k + " has different lengths on joined paths"}}
+			}
+		}
+	}
+	return m
 }
